@@ -74,6 +74,11 @@ Definition u_kek_compute (a : val) : val :=
     | Some h => vres VB (compute_kek sym h alg [] priv pub)
     | None => bad
     end
+  | VL [VI hid; VS alg; VB sp; VB priv; VB pub] =>      (* with the group's secret_parameters *)
+    match hash_of_id hid with
+    | Some h => vres VB (compute_kek sym h alg sp priv pub)
+    | None => bad
+    end
   | _ => bad
   end.
 Definition u_kek_from_pub (a : val) : val :=
@@ -81,6 +86,11 @@ Definition u_kek_from_pub (a : val) : val :=
   | VL [VI hid; VB seed; VS alg; VB pub; VI plen] =>
     match hash_of_id hid with
     | Some h => vres VB (compute_kek_from_public_key sym h seed alg [] pub plen)
+    | None => bad
+    end
+  | VL [VI hid; VB seed; VS alg; VB sp; VB pub; VI plen] =>
+    match hash_of_id hid with
+    | Some h => vres VB (compute_kek_from_public_key sym h seed alg sp pub plen)
     | None => bad
     end
   | _ => bad
